@@ -19,6 +19,8 @@ type G struct {
 	blockedOn string
 	exited    chan struct{}
 	held      map[*mutexState]int // lock -> mode (1 shared, 2 exclusive) for lockset analysis
+	parent    *G
+	helper    bool
 
 	// channel hand-off slots
 	recvVal Value
@@ -120,9 +122,32 @@ func (m *Machine) dispatch() {
 	}
 	next := rs[0]
 	if m.schedOn && len(rs) > 1 {
-		next = rs[m.decideN("sched", len(rs), nil)]
+		if fam := familyOf(cur, rs); fam != nil {
+			// a helper goroutine and its creator (parser and its private lexer) hand over to
+			// each other without the scheduler having a say
+			next = fam
+		} else {
+			next = rs[m.decideN("sched", len(rs), nil)]
+		}
 	}
 	m.switchTo(next)
+}
+
+// familyOf returns a runnable child or the runnable parent of g, if any.
+func familyOf(g *G, rs []*G) *G {
+	for _, r := range rs {
+		if r.parent == g && r.helper {
+			return r
+		}
+	}
+	if g.helper && g.parent != nil {
+		for _, r := range rs {
+			if r == g.parent {
+				return r
+			}
+		}
+	}
+	return nil
 }
 
 // abortFrom transfers an engine abort raised in a non-main goroutine to g0.
@@ -151,6 +176,9 @@ func (m *Machine) schedPoint() {
 	if len(rs) <= 1 {
 		return
 	}
+	if m.preempts >= m.preemptBound {
+		return // preemption bound reached: the current goroutine runs until it blocks or ends
+	}
 	// order: current first so that choice 0 = no context switch
 	sort.SliceStable(rs, func(i, j int) bool { return rs[i] == m.cur && rs[j] != m.cur })
 	c := m.decideN("sched", len(rs), nil)
@@ -161,7 +189,10 @@ func (m *Machine) schedPoint() {
 }
 
 func (m *Machine) spawn(fr *frame, pos token.Pos, fn Value, args []Value) {
-	g := &G{id: len(m.gs), wake: make(chan struct{}, 1), exited: make(chan struct{})}
+	g := &G{id: len(m.gs), wake: make(chan struct{}, 1), exited: make(chan struct{}), parent: m.cur}
+	// goroutines started by code under test (not by the harness function itself) are helpers
+	// of their creator
+	g.helper = fr != nil && fr.fn != nil && !strings.HasPrefix(fr.fn.Name(), "Harness") && (fr.fn.Parent() == nil || !strings.HasPrefix(fr.fn.Parent().Name(), "Harness"))
 	switch f := fn.(type) {
 	case *Closure:
 		g.name = f.fn.Name()
@@ -204,7 +235,9 @@ func (m *Machine) spawn(fr *frame, pos token.Pos, fn Value, args []Value) {
 				return
 			}
 			next := rs[0]
-			if m.schedOn && len(rs) > 1 {
+			if fam := familyOf(g, rs); m.schedOn && len(rs) > 1 && fam != nil {
+				next = fam
+			} else if m.schedOn && len(rs) > 1 {
 				var c int
 				var pe interface{}
 				func() {
@@ -229,7 +262,9 @@ func (m *Machine) spawn(fr *frame, pos token.Pos, fn Value, args []Value) {
 			m.abortFromDone(g, func() { panic(r) })
 		}
 	}()
-	m.schedPoint()
+	if !g.helper {
+		m.schedPoint()
+	}
 }
 
 func (m *Machine) runG(fn Value, args []Value, pos token.Pos) (r interface{}) {
@@ -291,7 +326,12 @@ func (m *Machine) teardownGoroutines() {
 // channels
 
 func (m *Machine) chanSend(fr *frame, c *Chan, v Value, pos token.Pos) {
-	m.schedPoint()
+	// channel operations are not preemption points: in the code under analysis channels
+	// connect a parser to its private lexer goroutine only, so preempting there would
+	// multiply equivalent schedules (a goroutine still yields when it blocks)
+	if m.schedChans {
+		m.schedPoint()
+	}
 	if c == nil {
 		m.block("send on nil channel")
 		return
@@ -320,7 +360,9 @@ func (m *Machine) chanSend(fr *frame, c *Chan, v Value, pos token.Pos) {
 }
 
 func (m *Machine) chanRecv(fr *frame, c *Chan, pos token.Pos) (Value, bool) {
-	m.schedPoint()
+	if m.schedChans {
+		m.schedPoint()
+	}
 	if c == nil {
 		m.block("receive on nil channel")
 		return nil, false
@@ -445,60 +487,108 @@ func (m *Machine) unlockMutex(fr *frame, p *Value, exclusive bool) {
 }
 
 // ---------------------------------------------------------------------------
-// lockset (Eraser-style) bookkeeping
+// lockset (Eraser-style) bookkeeping: while tracking is on, every access to a memory cell,
+// map or slice backing array records the accessing goroutine and intersects the set of locks
+// held (a write needs the lock exclusively). A location accessed by two goroutines, written
+// at least once, with no common lock is a race candidate — over all feasible paths explored,
+// not just executed schedules. Candidates are confirmed natively with the race detector.
+
+// Eraser's state machine per location: virgin -> exclusive (one goroutine; initialisation
+// before publication is not a race) -> shared (read by others) -> shared-modified (written
+// after becoming shared). Lockset refinement starts when the location becomes shared; only
+// shared-modified locations with an empty lockset are candidates.
+type cellInfo struct {
+	state    int // 0 virgin, 1 exclusive, 2 shared, 3 shared-modified
+	owner    int
+	cand     map[*mutexState]int
+	gs       map[int]bool
+	writePos string
+	otherPos string
+}
 
 type locksetState struct {
-	roots   map[*Value]string           // tracked cells -> description
-	cand    map[*Value]map[string]int   // cell -> lock name -> weakest mode seen
-	seen    map[*Value]bool
-	written map[*Value]bool
-	byG     map[*Value]map[int]bool
-	where   map[*Value]string
+	cells map[interface{}]*cellInfo
 }
 
 func newLockset() *locksetState {
-	return &locksetState{roots: map[*Value]string{}, cand: map[*Value]map[string]int{}, seen: map[*Value]bool{}, written: map[*Value]bool{}, byG: map[*Value]map[int]bool{}, where: map[*Value]string{}}
+	return &locksetState{cells: map[interface{}]*cellInfo{}}
 }
 
-func (ls *locksetState) access(m *Machine, p *Value, write bool, pos token.Pos) {
-	desc, ok := ls.roots[p]
-	if !ok {
+func (ls *locksetState) access(m *Machine, cell interface{}, write bool, pos token.Pos) {
+	if m.cur == nil {
 		return
 	}
-	_ = desc
-	held := map[string]int{}
-	if m.cur != nil {
+	ci := ls.cells[cell]
+	if ci == nil {
+		ci = &cellInfo{gs: map[int]bool{}}
+		ls.cells[cell] = ci
+	}
+	g := m.cur.id
+	ci.gs[g] = true
+	held := func() map[*mutexState]int {
+		h := map[*mutexState]int{}
 		for ms, mode := range m.cur.held {
-			held[ms.name] = mode
+			if write && mode < 2 {
+				continue
+			}
+			h[ms] = mode
+		}
+		return h
+	}
+	switch ci.state {
+	case 0:
+		ci.state, ci.owner = 1, g
+		return
+	case 1:
+		if g == ci.owner {
+			return
+		}
+		ci.cand = held()
+		if write {
+			ci.state = 3
+			ci.writePos = m.pos(pos)
+		} else {
+			ci.state = 2
+			ci.otherPos = m.pos(pos)
+		}
+		return
+	}
+	h := held()
+	for k := range ci.cand {
+		if _, ok := h[k]; !ok {
+			delete(ci.cand, k)
 		}
 	}
 	if write {
-		ls.written[p] = true
-		// a write needs exclusive mode
-		for k, v := range held {
-			if v < 2 {
-				delete(held, k)
-			}
+		if ci.state == 2 {
+			ci.state = 3
 		}
-		if ls.where[p] == "" {
-			ls.where[p] = m.pos(pos)
+		if ci.writePos == "" {
+			ci.writePos = m.pos(pos)
+		}
+	} else if ci.otherPos == "" {
+		ci.otherPos = m.pos(pos)
+	}
+}
+
+// candidates lists the race candidates found so far.
+func (ls *locksetState) candidates() []string {
+	var out []string
+	seen := map[string]bool{}
+	for _, ci := range ls.cells {
+		if ci.state != 3 || len(ci.cand) > 0 {
+			continue
+		}
+		msg := "written at " + ci.writePos
+		if ci.otherPos != "" {
+			msg += ", also accessed at " + ci.otherPos
+		}
+		msg += fmt.Sprintf(" by %d goroutines with no common lock", len(ci.gs))
+		if !seen[msg] {
+			seen[msg] = true
+			out = append(out, msg)
 		}
 	}
-	if !ls.seen[p] {
-		ls.seen[p] = true
-		ls.cand[p] = held
-	} else {
-		c := ls.cand[p]
-		for k := range c {
-			if _, ok := held[k]; !ok {
-				delete(c, k)
-			}
-		}
-	}
-	if ls.byG[p] == nil {
-		ls.byG[p] = map[int]bool{}
-	}
-	if m.cur != nil {
-		ls.byG[p][m.cur.id] = true
-	}
+	sort.Strings(out)
+	return out
 }
